@@ -941,9 +941,7 @@ class Model:
         model: :class:`.Model`
             A new instance of the model with all the interaction terms computed.
         """
-        if self == other:
-            return self
-        elif isinstance(other, type(self)):
+        if isinstance(other, type(self)):
             if len(other.common_terms) == 1:
                 components = other.common_terms[0].components
                 if len(components) == 1 and isinstance(components, (int, float)):
@@ -951,7 +949,7 @@ class Model:
             products = product(self.common_terms, other.common_terms)
             terms = self.common_terms + other.common_terms
             iterms = [Term(*p[0].components, *p[1].components) for p in products]
-            return Model(*terms) + Model(*iterms)
+            return Model() + Model(*terms) + Model(*iterms)
         elif isinstance(other, Term):
             if len(other.components) == 1 and isinstance(other.components[0].name, (int, float)):
                 raise TypeError("Interaction with numeric does not make sense.")
